@@ -167,6 +167,7 @@ PROPS['C15'] = dict(
          + [R('h_policy_adjust_full', tiers=T, covers=[1]), R('h_policy_adjust_small', 'fa', 'release', T, covers=[1]), R('h_policy_wiring4', tiers=T, covers=[1])]
          + twin('h_policy_twin'),
     budget_s=dict(quick=900, thorough=5400),
+    kani=['trigger_policy', 'adjust_from_default_threshold'],
 )
 PROPS['C16'] = dict(
     bounds="strong count 1+n with n a solver variable in 0..16381, one more pointer by clone or upgrade, object finalized or not, with or without a side record; "
@@ -175,6 +176,7 @@ PROPS['C16'] = dict(
     runs=both('h_sat_strong', 'faw', covers=[1, 2]) + both('h_sat_weak', 'faw', covers=[1, 2]) + both('h_counter_kernel', 'faw', covers=[1])
          + both('h_weak_kernel', 'faw', covers=[1]) + [R('h_sat_strong', 'none', covers=[1, 2])]
          + twin('h_count_twin', 'faw'),
+    kani=['strong_increment_saturates', 'strong_decrement', 'tracing_increment_and_reset', 'marks_and_flags_touch_only_their_bits', 'weak_word'],
 )
 PROPS['C17'] = dict(
     bounds="one generated instantiation per container: tuples 1..12, arrays {0,1,2,3,32}, Vec (len 0..4), boxed slice (0..3), Box, Option, Result, RefCell "
